@@ -77,6 +77,13 @@ def make_input(kind, data, sw, ch, files):
         return data, kw
     if kind == "buffer":
         return L["io"].BufferAudioSource(data, SR, sw, ch), {}
+    if kind == "user_adapter":
+        # a user-defined AudioSource subclass (first channel of a stereo source): `data` is what it hands out
+        from .chk_sources import mono_view_class, interleave_with_noise
+
+        if ch != 1:
+            return L["io"].BufferAudioSource(data, SR, sw, ch), {}
+        return mono_view_class()(L["io"].BufferAudioSource(interleave_with_noise(data, sw), SR, sw, 2)), {}
     if kind == "buffer_pos2":
         # a buffer source whose cursor was advanced before the reader was built: the reader's stream starts there
         src = L["io"].BufferAudioSource(data, SR, sw, ch)
@@ -776,7 +783,7 @@ def run(prop, tier):
         rep = common.Report(prop, tier, "bounded-exhaustive enumeration of (source length x format x block x hop x max_read x "
                             "source kind) with reads past the end, against the by-definition block model")
         kinds = ["bytes", "buffer", "raw", "wav", "stdin", "wav_eager", "stdin:1", "stdin:3", "stdin:5,2", "buffer_pos2",
-                 "rec:bytes", "rec:wav", "wavx"]
+                 "rec:bytes", "rec:wav", "wavx", "user_adapter"]
         tasks = [(sw, ch, B, kinds, tier, 8) for (sw, ch) in FORMATS for B in (range(1, 6) if quick else range(1, 8))]
         # a high rate: max_read / block_dur / hop_dur are sub-millisecond values there
         tasks += [(sw, ch, B, ["bytes", "wav", "stdin", "stdin:3", "rec:bytes"], tier, 16000) for (sw, ch) in FORMATS[:2] for B in ((2, 3) if quick else (1, 2, 3, 5))]
@@ -814,6 +821,7 @@ def run(prop, tier):
         for B, H in ((1, 1), (2, 1), (3, 2)):
             for mr in (None, 2.5 / SR):
                 tasks.append(((n, 2, 1, B, H, mr, "Recorder", "buffer_pos2"), 2, 5 if quick else 6))
+                tasks.append(((n, 2, 1, B, H, mr, "record", "user_adapter"), 2, 5 if quick else 6))
     # more than 1024 / 2048 reads before the rewind
     for (n, B, H, mr, k) in ((1100, 1, 1, None, 1030), (2300, 1, 1, None, 2060), (2200, 2, 1, 2100 / SR, 1040), (3300, 3, 3, None, 1030)):
         tasks.append(((n, 1, 1, B, H, mr, "Recorder", "bytes"), 0, 3, k))
